@@ -129,6 +129,17 @@ def handle (st : DState) (l : Line) : Option (DState × Except String String) :=
       let removed := ((totals st).2.1 + (totals st).2.2) - ((totals st').2.1 + (totals st').2.2)
       ret st' (.ok ("ok\t" ++ (if removed > 0 then "expired" else "nothing")))
     | .error e => ret st (.error e)
+  | "st.redis_gc_race" =>
+    -- Any sequential order of {expiry pass with cutoff T, re-announce at a clock after T} keeps the peer:
+    -- put-then-pass leaves mtime > T; pass-then-put re-adds it. The model applies them in that order.
+    match l.bytes "ih", l.bytes "pk" with
+    | .ok ih, .ok pk =>
+      let p := peerOfKey pk
+      let st1 := putSeeder st ih p
+      let st2 := gc { st1 with clock := st.clock + 1000000000 } (st.clock + 500000000)
+      let st3 := putSeeder st2 ih p
+      ret st3 (.ok (s!"reannounced_during_pass=1 kept={(scrape st3 ih p.fam).1}\tgcrace"))
+    | _, _ => ret st (.error "bad args")
   | "st.dump" => ret st (.ok ((if st.redis then dumpRedis st.red else dump st.mem) ++ "\tdump"))
   | "st.totals" =>
     let (a, b, c) := totals st
